@@ -14,6 +14,8 @@ def CFG(R, FZ):
         "C08": dict(pkg="c08", level="exploration", runs=[R(shards=(8, 16))]),
         "C09": dict(pkg="c09", level="exploration", runs=[R(shards=(8, 16))]),
         "C11": dict(pkg="c11", level="exploration", runs=[R(shards=(8, 16))]),
+        "C12": dict(pkg="c12", level="exploration", runs=[R(name="race", race=True, shards=(8, 16), timeout=(300, 3000))]),
+        "C13": dict(pkg="c13", level="exploration", runs=[R(name="race", race=True, shards=(8, 16), timeout=(300, 3000))]),
         "C14": dict(pkg="c14", level="fault_enumeration", runs=[R(shards=(8, 16))]),
         "C15": dict(pkg="c15", level="exploration", runs=[R(shards=(4, 16))]),
         "C16": dict(pkg="c16", level="exploration", runs=[R(shards=(4, 16))]),
